@@ -6,6 +6,7 @@ const char* const harness::ID = "C03";
 void harness::run_case(const eng::Raw& raw, eng::Ctx& ctx)
 {
 	gen::Limits lim;
+	lim.overload = true;
 	lim.maxStates = ctx.tier() ? 8 : 6;
 	lim.arity3 = true;
 	gen::TACase c = gen::decode_ta(raw, lim, false);
